@@ -26,6 +26,21 @@ Definition trim_term (fetched : list bytes) (fs ts te : N) (unpacked_length : N)
   | None => None
   end.
 
+(* get_one_term as a whole: an inverted range is an error; a cache hit for exactly the term's range is returned as it is;
+   otherwise the first fetch-info entry of the xorb that covers the term is downloaded ([download fs fe]: the chunks of the
+   range, decompressed) and trimmed.  No covering entry: "invalid response from CAS server". *)
+Definition pick_fetch (infos : list (N * N)) (ts te : N) : option (N * N) :=
+  find (fun r => (fst r <=? ts) && (te <=? snd r)) infos.
+Definition get_one_term (cached : option bytes) (infos : list (N * N)) (download : N -> N -> list bytes) (ts te unpacked_length : N) : option bytes :=
+  if te <? ts then None
+  else match cached with
+       | Some d => Some d
+       | None => match pick_fetch infos ts te with
+                 | None => None
+                 | Some (fs, fe) => trim_term (download fs fe) fs ts te unpacked_length
+                 end
+       end.
+
 (* reconstruct_file_to_writer: terms in order, the first one entered at [off], at most [remaining] bytes in all.
    None: `term_data[start..end]` with start > end or start > len (a panic) *)
 Fixpoint seq_write (terms : list bytes) (first : bool) (off : N) (remaining : N) : option bytes :=
